@@ -37,6 +37,12 @@ Proof. vm_compute. repeat split. Qed.
 Example ex_point_scale : abs (mkS [1; 5; 5] 1 (Some 1%nat) false) = ([1; 5], [5]) /\ wf (mkS [1; 5; 5] 1 (Some 1%nat) false).
 Proof. split; [reflexivity | cbn; lia]. Qed.
 
+(* the repaired done(): a numeral that is malformed in itself and ends in a separator is rejected WITHOUT a separator
+   error, so JoinNumericPlugin does not join its prefix (十55, used to be joined as "0") *)
+Example ex_malformed_with_trailing_separator :
+  fst (parse gen_cfg [21313;53;53;44]) = (false, 0) /\ fst (parse gen_cfg [57;21313;20116;53;50;50;20108;19977;46]) = (false, 0).
+Proof. vm_compute. split; reflexivity. Qed.
+
 (* Observation (not a violation under the "never a WRONG value" reading; reported in the final report): some malformed
    strings are joined with the value of their natural reading *)
 Example obs_repeated_large_unit : parse gen_cfg [30334;19975;51;19975] = (true, 0, [49;48;51;48;48;48;48]).   (* 百万3万 -> 1030000 *)
